@@ -1048,6 +1048,12 @@ func (x *Exec) specCall(env *SpecEnv, c ECall) SpecVal {
 	case "seqof":
 		v := x.spec(env, c.Args[0])
 		return x.sliceToSeq(env.st, v)
+	case "atomicval":
+		o := x.specTerm(env, c.Args[0])
+		return SpecVal{T: Select(x.heapGet(env.st, "$atomic", SArr(SInt, x.idxSort())), o)}
+	case "atomicbool":
+		o := x.specTerm(env, c.Args[0])
+		return SpecVal{T: Select(x.heapGet(env.st, "$atomicb", SArr(SInt, SBool)), o)}
 	case "closureof":
 		// closureof(v, "WaitChannel$1"): v is, on this path, a closure of the
 		// function whose key ends in the given name (decided by the engine's
